@@ -201,6 +201,41 @@ pub fn sites(tier: Tier) -> Vec<Site> {
                 }
             }));
     }
+    // every count 0..=N in every count field on its own: a chunked or buffered reader whose last chunk is
+    // mishandled needs one particular count, not a boundary one
+    {
+        let n_max: u64 = if tier == Tier::Thorough { 40_000 } else { 8_192 };
+        let per = n_max + 1;
+        sites.push(Site::new("count-sweep", per * 5,
+            &format!("files with every count 0..={n_max} in one count field at a time {{PTH nodes, SMX objects (empty), SMX points, SMX triangles (one object), SMX checkpoints}}: parsed, written back byte for byte, re-parsed"),
+            move |i, acc| {
+                mark(3, i);
+                acc.eval();
+                let n = (i % per) as usize;
+                let f = match i / per {
+                    0 => build_pth(n, 1),
+                    1 => build_smx(n, 0, 0, 1, 1, b"Blackwood"),
+                    2 => build_smx(1, n, 1, 1, 1, b"Blackwood"),
+                    3 => build_smx(1, 3, n, 1, 1, b"Blackwood"),
+                    _ => build_smx(1, 3, 1, n, 1, b"Blackwood"),
+                };
+                let replay = json!({"site": "count-sweep", "index": i, "file": f.name});
+                let kind = if f.smx { "SMX" } else { "PTH" };
+                match guard(|| parse_and_write(f.smx, &f.bytes)) {
+                    Err(p) => acc.violate(i, format!("C17|{kind}|panic|valid-file"), format!("{}: {p}", f.name), replay),
+                    Ok(Err(e)) => acc.violate(i, format!("C17|{kind}|valid-file-rejected"), format!("{}: {e}", f.name), replay),
+                    Ok(Ok((_, written))) => {
+                        if written != f.bytes {
+                            let off = written.iter().zip(&f.bytes).position(|(a, b)| a != b).unwrap_or(written.len().min(f.bytes.len()));
+                            acc.violate(i, format!("C17|{kind}|canonical-file-not-reproduced"), format!("{}: written bytes differ from the bytes read at offset {off} ({} vs {} bytes)", f.name, written.len(), f.bytes.len()), replay);
+                        } else {
+                            acc.class("round-trips");
+                            acc.nontrivial();
+                        }
+                    },
+                }
+            }));
+    }
     // every truncation point
     {
         let mut cases: Vec<(usize, usize)> = vec![];
@@ -469,7 +504,7 @@ pub fn run(tier: Tier, replay: Option<String>) -> i32 {
         Some(c @ (0 | 1)) => c,
         other => {
             // the sweep died: find the case(s) in flight and re-run each in its own process
-            let names = ["round-trip", "truncation", "substitution"];
+            let names = ["round-trip", "truncation", "substitution", "count-sweep"];
             let raw = std::fs::read(&slots).unwrap_or_default();
             let mut pinned = 0;
             let mut tried = 0u64;
